@@ -358,7 +358,7 @@ fn run(ctx: &Ctx) {
                 pat: if func == Func::Fixed { pat } else { vec![] },
             }
         });
-    let n = ctx.share(ctx.tier.pick(1_500_000, 15_000_000));
+    let n = ctx.share(ctx.tier.pick(1_500_000, 40_000_000));
     ctx.run_cases("sampled", n, strat, check);
 }
 
